@@ -5,7 +5,8 @@ import subprocess
 
 ROOT = os.path.dirname(os.path.dirname(os.path.abspath(__file__)))
 
-SCHED_NOTE = ("Trusted: TLC; go1.26 testing/synctest quiescence; the frame tokeniser and the self-delimiting row markers of the "
+SCHED_NOTE = ("MPBCore.tla part (where the property has one, DESIGN.md section 4): exhaustive TLC on 1-3 small configurations, its behaviours replayed gate by gate, "
+              "every recorded gate trace validated by MPBTrace.tla; drift is recorded, verdicts come from Obs.tla on real executions. Trusted: TLC; go1.26 testing/synctest quiescence; the frame tokeniser and the self-delimiting row markers of the "
               "harness; the mapping of recorded findings by rule name. Bounds: programs of 1-4 bars and 1-3 client goroutines, "
               "schedules sampled by a seeded random gate scheduler and by TLC-generated schedules of MPBCore.tla.")
 
